@@ -303,10 +303,41 @@ PROPS = {
         "not_covered": ["status line / reason phrase / automatic field emission and ordering (format!, write!)", "file and event-stream body sources",
                         "that `num_copied != body_len` is reported (short body file) -- see C08 not_covered"],
     },
+    "C02": {
+        "title": "Parsed head is faithful to the bytes sent (grammar part)",
+        "design_ref": "DESIGN.md section 4 (C02)",
+        "technique": "Verus contracts on parse_request_line / parse_header_line / trim_whitespace (real text; regex! replaced by a stand-in matcher "
+                     "keyed to the exact literal) + a complete language-equivalence decision of each regex literal against the RFC 7230 reference expression",
+        "level_text": "Deductive, for every line: parse_header_line returns the name verbatim and the matched value with exactly the surrounding "
+                      "SP/HTAB/CR/LF run removed, rejects with MalformedHeader iff the line does not match or the value is not ASCII, and never "
+                      "panics; parse_request_line yields MalformedRequestLine / MalformedPath / UnsupportedProtocol in that order, accepts only "
+                      "HTTP/1.1 with a target starting with '/', and returns the method verbatim. Complete decision (product automaton over all "
+                      "256 byte values): the two regex literals in the source accept exactly the language of the reference expressions "
+                      "token SP [^ \\t\\r\\n]+ SP [^ \\t\\r\\n]+ and token ':' OWS .* OWS, with the same number of capture groups.",
+        "level_note": "The language-equivalence step is a decision procedure, not a Verus obligation; it discharges the assumed matcher contract "
+                      "against the literal in the source (not against safe_regex's implementation, and not the capture-group boundaries). "
+                      "Not covered: target -> url::Url (path / query), order of fields and line splitting in try_read (iterator chain), bare LF.",
+        "verus": ["parse", "head"],
+        "verus_thorough": [],
+        "kani": [],
+        "witness": "c02",
+        "regex": [
+            {"src": "src/head.rs", "item": "impl Head / fn parse_header_line", "kind": "field", "groups": 2,
+             "reference": "([!#$%&'*+\\-.^_`|~0-9A-Za-z]+):[ \\t]*(.*)[ \\t]*"},
+            {"src": "src/head.rs", "item": "impl Head / fn parse_request_line", "kind": "request", "groups": 3,
+             "reference": "([!#$%&'*+\\-.^_`|~0-9A-Za-z]+) ([^ \\t\\r\\n]+) ([^ \\t\\r\\n]+)"},
+        ],
+        "assumptions": [
+            "assumed contract of safe_regex Matcher2 / Matcher3::match_slices: groups are as the regular expression says (field name / method are tchar runs)",
+            "assumed std contracts: String::from_utf8 / str::from_utf8 on ASCII, str::starts_with(char), slice to_vec; url::Url stand-in (Url::parse of the constant base succeeds)",
+            "latin1_bytes_to_utf8 maps byte i to the character with that code point (iterator chain, assumed)",
+        ],
+        "not_covered": ["target -> Url path / query", "order of header fields, CRLF vs bare LF line splitting (split/map chain in try_read)",
+                        "capture-group boundaries of the regex (only the language and the group count are decided)"],
+    },
 }
 
 NOT_APPLICABLE = {
-    "C02": "check not built yet (planned: language equivalence of the regex literals with the RFC 7230 grammar + Verus glue; the field-line half is under contract in unit `parse`, claimed under C01)",
     "C04": "quantifies over histories of invocations of an opaque generic async handler closure, the blocking pool and panics; a modular contract cannot count calls of F without instrumenting its call sites, and neither Verus nor Kani models the pool or unwinding (the 'closed after error / 5xx / unread body' clause is carried by C05 / C08)",
     "C10": "about destructor execution at scope exit, future cancellation and panic (Rust drop semantics + temp-file's Drop + the file system); no statement in /repo to attach an obligation to, and neither verifier models drop timing or the file system",
     "C11": "sender / writer interleavings are concurrency (bounded channel between threads); the encoder is write! + str::lines, outside both verifiers; the one contract-level fact -- EventReceiver can return Ok(0) for an event with empty data, which copy_chunked_async's contract reads as end of stream -- is recorded in C07's assumptions",
